@@ -203,9 +203,10 @@ def reader_check(ctx, mode, mc_args, drivers, gen_args=None, l1=True, thorough_m
             last = p.stderr.strip().splitlines()[-1][:200] if p.stderr.strip() else ""
             why = ("a call of the real code did not return within 20 s (hang) in this case" if p.returncode == 3
                    else "the process running the real code was killed (rc=%d) while executing this case" % p.returncode)
-            if ctx.prop not in ("C05", "C17", "C14"):
-                # only the totality / memory properties speak about crashes and hangs; elsewhere the check cannot evaluate its property
-                raise C.ToolError("%s (driver %s); run ./check C05" % (why, d))
+            if p.returncode in (-9, 137):
+                raise C.ToolError("%s (driver %s): killed from outside (out of memory?)" % (why, d))
+            # no driver asks the real code for an allocation it may legitimately make above 8 MiB, none can loop: an abort
+            # (allocation failure, stack overflow) or a hang on one of this property's cases is reported with that case as witness
             ctx.violation(lines[a:], why + ": " + last)
             with open(tf, "w") as f:
                 f.write("\n".join(lines[:a]) + ("\n" if a else ""))
